@@ -66,6 +66,7 @@ def _configs(tier):
     quick = [
         (3, 1, 1, 0.5, 0.8), (3, 0, 1, 1.5, 0.4), (3, 1, 0, 0.3, 2.0), (2, 0, 0, 0.9, 1.3),
         (3, 2, 1, 2.0, 0.8),      # truncation above N/2: the circulant transition table is NOT symmetric
+        (3, 1, 2, 0.7, 1.6),      # ... and an asymmetric observation table
     ]
     if tier == "quick":
         return quick
@@ -75,7 +76,7 @@ def _configs(tier):
             for ko in (0, 1):
                 for st, so in ((0.25, 1.0), (2.0, 0.5), (1.0, 3.0)):
                     more.append((N, kt, ko, st, so))
-    more += [(4, 3, 1, 1.5, 0.8), (3, 1, 2, 0.7, 1.6), (4, 3, 3, 0.4, 1.4),     # asymmetric transition / observation / both
+    more += [(4, 3, 1, 1.5, 0.8), (4, 1, 3, 0.7, 1.6), (4, 3, 3, 0.4, 1.4),     # asymmetric transition / observation / both
              (4, 2, 1, 0.5, 0.8), (4, 1, 2, 1.2, 0.4), (5, 2, 2, 0.6, 0.9)]
     return quick + more
 
